@@ -279,6 +279,80 @@ def r40_broadcast(facts):
                 c.check(want is not None and same(vals[0][1], want), "scalar:axpy", where, "element = %r" % want, "axpy computes %r per element, not alpha * x + y" % (vals[0][1],))
             except Unsupported:
                 c.unk("scalar:axpy", where, "comparison outside the algebra")
+    # ------------------------------------------------------------------ (d) every result carries the broadcast dimensions
+    from .pass_rules import _return_paths
+    from .shape_rules import _lets as _shape_lets, DIMS_PASS
+    from .engine_rules import SLICED_OP as _SLICED
+    ewd_defs = {b["def"] for b in ewd}
+    n_users = 0
+    for b in facts.fns():
+        root = facts.root(b)
+        if root is None or b["def"] in ewd_defs:
+            continue
+        calls = [n for n in walk(root) if n.get("k") == "Call" and resolved(n) in ewd_defs]
+        if not calls:
+            continue
+        n_users += 1
+        env = {}
+        for nb in facts.nested(b):
+            env.update(_shape_lets(facts, nb))
+
+        def is_broadcast_dims(e, depth=0):
+            """True if e denotes the vector computed by the broadcast-shape function; ('operand', text) if it denotes one operand's own dimensions"""
+            e = peel(e)
+            if not isinstance(e, dict) or depth > 8:
+                return None
+            if e.get("k") in ("VarRef", "UpvarRef") and e["v"] in env:
+                return is_broadcast_dims(env[e["v"]], depth + 1)
+            if e.get("k") == "Call":
+                if resolved(e) in ewd_defs:
+                    return True
+                cn, rn = callee(e) or "", resolved(e) or ""
+                if (cn in DIMS_PASS or rn in DIMS_PASS or cn.rsplit("::", 1)[-1] in ("clone", "to_vec", "to_owned", "as_slice", "deref", "new", "as_ref", "borrow")) and e["args"]:
+                    return is_broadcast_dims(e["args"][0], depth + 1)
+                if rn == "corgi::array::Array::dimensions" and e["args"]:
+                    return ("operand", show(e)[:50])
+            if e.get("k") == "Field" and e.get("name") == "dimensions":
+                return ("operand", show(e)[:50])
+            return None
+        for ctx, e in _return_paths(root):
+            t = strip(e)
+            v = F.var_of(t)
+            if v and t.get("k") == "VarRef" and v in env:
+                t = strip(env[v])
+            inst = "result-dims:%s" % b["def"]
+            dims_e = None
+            if t.get("k") == "Call" and resolved(t) == _SLICED and len(t["args"]) >= 7:
+                if lit_value(t["args"][6]) == 0:
+                    dims_e = t["args"][4]
+            elif t.get("k") == "Call" and (resolved(t) or "").startswith("<%s as core::convert::From<(" % ARRAY) and t["args"]:
+                tup = strip(t["args"][0])
+                if tup.get("k") == "Tuple" and len(tup["fields"]) == 2:
+                    dims_e = tup["fields"][0]
+            if dims_e is None:
+                c.unk(inst, F.loc(b, e), "a result of the element-wise combinator is built in a way whose dimensions are not read: %s" % show(t)[:80])
+                continue
+            verdict = is_broadcast_dims(dims_e)
+            if verdict is True:
+                c.ok(inst, F.loc(b, e), "the result is built with the dimensions computed by the broadcast-shape function")
+            elif isinstance(verdict, tuple):
+                # under a guard that compares the operands' shapes the operand's own dimensions may be the broadcast dimensions
+                shape_conds = [cond for cond, truth in F.path_facts(ctx)
+                               if any(x.get("k") == "Field" and x.get("name") == "dimensions" or (x.get("k") == "Call" and resolved(x) == "corgi::array::Array::dimensions") for x in walk(cond))]
+                if shape_conds:
+                    both_eq = any(truth and strip(cond).get("k") in ("Binary", "Call") and (strip(cond).get("op") == "Eq" or callee(strip(cond)) == "core::cmp::PartialEq::eq")
+                                  and len({show(x)[:40] for x in walk(cond) if x.get("k") == "Field" and x.get("name") == "dimensions"}) >= 2
+                                  for cond, truth in F.path_facts(ctx))
+                    if both_eq:
+                        c.ok(inst, F.loc(b, e), "built with one operand's dimensions on a path where the two operands' dimensions are equal")
+                    else:
+                        c.unk(inst, F.loc(b, e), "built with one operand's dimensions (`%s`) under a condition on the shapes (`%s`) that this rule does not decide" % (verdict[1], show(shape_conds[0])[:60]))
+                    continue
+                c.bad(inst, F.loc(b, e), "a result of the element-wise combinator is built with one operand's own dimensions (`%s`) instead of the pairwise-maximum "
+                      "dimensions computed by the broadcast-shape function: wrong whenever the other operand has more dimensions or a larger one" % verdict[1])
+            else:
+                c.unk(inst, F.loc(b, e), "where the result's dimensions (`%s`) come from is not recognised" % show(dims_e)[:60])
+    c.floor("functions that compute a broadcast shape (the element-wise combinator)", n_users, 1)
     # ------------------------------------------------------------------ (c) alignment consistency of the slice walk
     so = facts.body("corgi::array::Array::sliced_op")
     if so is None:
